@@ -1,0 +1,315 @@
+//go:build verif
+
+package verifbcl
+
+// Verification-only (build tag "verif"): a deterministic coverage-guided corpus
+// builder for parser.ParseFile. It is driven by the external verification
+// harness, which runs
+//
+//	go test -tags verif -count=1 -run TestVerifCoverage \
+//	  -coverpkg=<internal/bcl/internal/parser>,<internal/bcl/errpos> -coverprofile=<file> ./internal/bcl/verifbcl/
+//
+// with VERIF_COV_INPUTS naming a file of seed inputs (one per line: a one-letter
+// origin tag, a tab, the input quoted with %q). Every seed, then VERIF_COV_MUTANTS
+// mutants of seeds and of inputs kept so far, is parsed in both modes (fail-fast,
+// collect-all) and its diagnostics are rendered; an input is kept iff
+// testing.Coverage() (the fraction of statements of the -coverpkg packages reached
+// so far) strictly increased while it ran, or it panicked or did not terminate. The kept inputs go
+// to the file named by VERIF_COV_OUT in the same line format (mutants have the
+// tag 'm'), followed by '#key value' summary lines. The mutator PRNG is seeded
+// from VERIF_SEED only: same seed, same sources => same kept corpus (unless the
+// wall-clock safety net VERIF_COV_BUDGET_MS, default 90 s, cut the mutation loop short,
+// which the summary reports as '#budget_exhausted 1').
+// Without VERIF_COV_INPUTS the test is skipped.
+
+import (
+	"bufio"
+	"fmt"
+	"math/rand"
+	"os"
+	"strconv"
+	"strings"
+	"testing"
+	"time"
+
+	"github.com/pentops/j5/internal/bcl/errpos"
+	"github.com/pentops/j5/internal/bcl/internal/parser"
+)
+
+type covInput struct {
+	tag string
+	src string
+}
+
+func covReadInputs(path string) ([]covInput, error) {
+	f, err := os.Open(path)
+	if err != nil {
+		return nil, err
+	}
+	defer f.Close()
+	var out []covInput
+	sc := bufio.NewScanner(f)
+	sc.Buffer(make([]byte, 1<<20), 1<<26)
+	n := 0
+	for sc.Scan() {
+		n++
+		line := sc.Text()
+		if line == "" || line[0] == '#' {
+			continue
+		}
+		tag, q, ok := strings.Cut(line, "\t")
+		if !ok {
+			return nil, fmt.Errorf("%s:%d: no tab", path, n)
+		}
+		s, err := strconv.Unquote(q)
+		if err != nil {
+			return nil, fmt.Errorf("%s:%d: %v", path, n, err)
+		}
+		out = append(out, covInput{tag, s})
+	}
+	return out, sc.Err()
+}
+
+// covExercise is what the harness oracle does with one input: ParseFile in both
+// modes, the error text, and the rendering of the diagnostics with 0..3 context lines.
+func covExercise(src string) {
+	for _, failFast := range []bool{true, false} {
+		_, err := parser.ParseFile(src, failFast)
+		if err == nil {
+			continue
+		}
+		_ = err.Error()
+		if ws, ok := errpos.AsErrorsWithSource(err); ok {
+			for ctx := 0; ctx <= 3; ctx++ {
+				_ = ws.HumanString(ctx)
+			}
+		}
+	}
+}
+
+// covRun runs one input under recover and a deadline: "" | "panic" | "timeout".
+func covRun(src string) string {
+	ch := make(chan string, 1)
+	go func() {
+		defer func() {
+			if r := recover(); r != nil {
+				ch <- "panic"
+			}
+		}()
+		covExercise(src)
+		ch <- ""
+	}()
+	select {
+	case s := <-ch:
+		return s
+	case <-time.After(10 * time.Second):
+		return "timeout"
+	}
+}
+
+// every token kind, the characters that open a lexer sub-automaton, escapes,
+// multi-byte and invalid characters
+var covDict = []string{
+	"\n", " ", "\t", "\r", "a", "ab", "a.b", "true", "false", "\"s\"", "\"\"", "\"a\\\"b\"", "\"a\\\\\"", "\"a\\\nb\"", "\"\\q\"", "\"",
+	"/r/", "/a//b/", "/", "//", "// c", "/*", "*/", "/* b */", "/* m\nl */", "|", "| d", "12", "1.5", "1.", "1.2.3", ".",
+	"=", "+=", "+", "{", "}", "[", "]", "[]", ",", ":", "!", "?", "#", "\\", "_", "-", "'",
+	"\u00e9", "\u65e5\u672c", "\u00a0", "\u2028", "\u0663", "\U0001F600", "\xff", "\xe2\x82", "\x00", "\v",
+}
+
+const covBytes = " \n\t\"/\\|*.=+{}[],:!?#_09azAZ"
+
+func covWindow(r *rand.Rand, s string, maxLines int) string {
+	lines := strings.SplitAfter(s, "\n")
+	n := 1 + r.Intn(maxLines)
+	i := r.Intn(len(lines))
+	j := i + n
+	if j > len(lines) {
+		j = len(lines)
+	}
+	return strings.Join(lines[i:j], "")
+}
+
+// covSmall cuts a parent down to a window of at most 8 lines and at most 1000 bytes: mutants stay small
+func covSmall(r *rand.Rand, s string) string {
+	s = covWindow(r, s, 8)
+	if len(s) > 1000 {
+		i := r.Intn(len(s) - 400)
+		s = s[i : i+400]
+	}
+	return s
+}
+
+// covCut picks a cut position, preferring the boundary after a space, newline or punctuation character
+func covCut(r *rand.Rand, s string) int {
+	if len(s) == 0 {
+		return 0
+	}
+	p := r.Intn(len(s) + 1)
+	if r.Intn(3) == 0 {
+		return p
+	}
+	for q := p; q < len(s) && q < p+12; q++ {
+		c := s[q]
+		if c < 0x80 && !(c == '_' || c >= '0' && c <= '9' || c >= 'a' && c <= 'z' || c >= 'A' && c <= 'Z') {
+			return q
+		}
+	}
+	return p
+}
+
+func covMutate(r *rand.Rand, s string, pool func() string) string {
+	if len(s) > 400 || r.Intn(4) == 0 {
+		s = covSmall(r, s)
+	}
+	b := []byte(s)
+	for k := 1 + r.Intn(3); k > 0; k-- {
+		switch r.Intn(8) {
+		case 0: // change a byte
+			if len(b) > 0 {
+				i := r.Intn(len(b))
+				if r.Intn(2) == 0 {
+					b[i] ^= 1 << uint(r.Intn(8))
+				} else {
+					b[i] = byte(r.Intn(256))
+				}
+			}
+		case 1: // insert a byte
+			i := r.Intn(len(b) + 1)
+			c := byte(r.Intn(256))
+			if r.Intn(2) == 0 {
+				c = covBytes[r.Intn(len(covBytes))]
+			}
+			b = append(b[:i:i], append([]byte{c}, b[i:]...)...)
+		case 2: // delete a run of bytes
+			if len(b) > 0 {
+				i := r.Intn(len(b))
+				n := 1 + r.Intn(4)
+				if i+n > len(b) {
+					n = len(b) - i
+				}
+				b = append(b[:i:i], b[i+n:]...)
+			}
+		case 3, 4: // insert a token
+			i := covCut(r, string(b))
+			t := covDict[r.Intn(len(covDict))]
+			b = append(b[:i:i], append([]byte(t), b[i:]...)...)
+		case 5: // splice: a head of this input, a tail of another
+			o := pool()
+			if len(o) > 400 {
+				o = covSmall(r, o)
+			}
+			i, j := covCut(r, string(b)), covCut(r, o)
+			b = append(b[:i:i], o[j:]...)
+		case 6: // truncate
+			b = b[:covCut(r, string(b))]
+		case 7: // duplicate a piece
+			if len(b) > 0 {
+				i := covCut(r, string(b))
+				j := i + 1 + r.Intn(8)
+				if j > len(b) {
+					j = len(b)
+				}
+				piece := append([]byte{}, b[i:j]...)
+				b = append(b[:j:j], append(piece, b[j:]...)...)
+			}
+		}
+	}
+	return string(b)
+}
+
+func TestVerifCoverage(t *testing.T) {
+	inPath := os.Getenv("VERIF_COV_INPUTS")
+	if inPath == "" {
+		t.Skip("VERIF_COV_INPUTS not set")
+	}
+	outPath := os.Getenv("VERIF_COV_OUT")
+	if outPath == "" {
+		t.Fatal("VERIF_COV_OUT not set")
+	}
+	if testing.CoverMode() == "" {
+		t.Fatal("not built with -cover: coverage guidance is not available")
+	}
+	seed, _ := strconv.ParseInt(os.Getenv("VERIF_SEED"), 10, 64)
+	mutants, _ := strconv.Atoi(os.Getenv("VERIF_COV_MUTANTS"))
+	budget := 90 * time.Second // safety net only: a run cut short by it says so (#budget_exhausted 1)
+	if ms, err := strconv.Atoi(os.Getenv("VERIF_COV_BUDGET_MS")); err == nil && ms > 0 {
+		budget = time.Duration(ms) * time.Millisecond
+	}
+	seeds, err := covReadInputs(inPath)
+	if err != nil {
+		t.Fatal(err)
+	}
+	started := time.Now()
+	var kept []covInput
+	counts := map[string]int{}
+	stopped := false
+	cov := testing.Coverage()
+	covAtStart := cov
+	try := func(in covInput) {
+		st := covRun(in.src)
+		now := testing.Coverage()
+		switch {
+		case st != "":
+			counts[st]++
+			kept = append(kept, covInput{in.tag + "!" + st, in.src})
+			stopped = stopped || st == "timeout" // the runaway goroutine keeps running: stop here
+		case now > cov:
+			kept = append(kept, in)
+			counts["kept_"+in.tag]++
+		}
+		cov = now
+	}
+	for _, in := range seeds {
+		if stopped {
+			break
+		}
+		try(in)
+	}
+	covAfterSeeds := cov
+	keptSeeds := len(kept)
+	r := rand.New(rand.NewSource(seed))
+	small := make([]string, 0, len(seeds))
+	for _, in := range seeds {
+		small = append(small, in.src)
+	}
+	pool := func() string {
+		if len(kept) > 0 && r.Intn(2) == 0 {
+			return kept[r.Intn(len(kept))].src
+		}
+		if len(small) == 0 {
+			return ""
+		}
+		return small[r.Intn(len(small))]
+	}
+	done := 0
+	exhausted := 0
+	for ; done < mutants && !stopped; done++ {
+		if done%1024 == 0 && time.Since(started) > budget {
+			exhausted = 1
+			break
+		}
+		try(covInput{"m", covMutate(r, pool(), pool)})
+	}
+
+	f, err := os.Create(outPath)
+	if err != nil {
+		t.Fatal(err)
+	}
+	w := bufio.NewWriter(f)
+	for _, in := range kept {
+		fmt.Fprintf(w, "%s\t%q\n", in.tag, in.src)
+	}
+	fmt.Fprintf(w, "#seeds %d\n#mutants %d\n#kept %d\n#kept_seeds %d\n#kept_mutants %d\n#panics %d\n#timeouts %d\n",
+		len(seeds), done, len(kept), keptSeeds, len(kept)-keptSeeds, counts["panic"], counts["timeout"])
+	fmt.Fprintf(w, "#budget_exhausted %d\n", exhausted)
+	fmt.Fprintf(w, "#covermode %s\n#coverage_start %.6f\n#coverage_seeds %.6f\n#coverage_end %.6f\n#millis %d\n",
+		testing.CoverMode(), covAtStart, covAfterSeeds, cov, time.Since(started).Milliseconds())
+	if err := w.Flush(); err != nil {
+		t.Fatal(err)
+	}
+	if err := f.Close(); err != nil {
+		t.Fatal(err)
+	}
+	t.Logf("coverage-guided corpus: %d seeds, %d mutants, kept %d (%d seeds, %d mutants), statements reached %.2f%% -> %.2f%% -> %.2f%%, %v",
+		len(seeds), done, len(kept), keptSeeds, len(kept)-keptSeeds, 100*covAtStart, 100*covAfterSeeds, 100*cov, time.Since(started).Round(time.Millisecond))
+}
